@@ -170,4 +170,372 @@ def tokenPc : Pc → Bool
 @[simp, grind =] theorem tokenPc_xRel : tokenPc .xRel = false := rfl
 @[simp, grind =] theorem tokenPc_done : tokenPc .done = false := rfl
 
+/-- the private copy has been taken and the body has not run yet -/
+def snapAPc : Pc → Bool
+  | .wReturn | .wBody => true
+  | _ => false
+
+@[simp, grind =] theorem snapAPc_idle : snapAPc .idle = false := rfl
+@[simp, grind =] theorem snapAPc_wInit : snapAPc .wInit = false := rfl
+@[simp, grind =] theorem snapAPc_wAcq : snapAPc .wAcq = false := rfl
+@[simp, grind =] theorem snapAPc_wTest : snapAPc .wTest = false := rfl
+@[simp, grind =] theorem snapAPc_wMkTxn : snapAPc .wMkTxn = false := rfl
+@[simp, grind =] theorem snapAPc_wClrEv : snapAPc .wClrEv = false := rfl
+@[simp, grind =] theorem snapAPc_wRelA : snapAPc .wRelA = false := rfl
+@[simp, grind =] theorem snapAPc_wNewEv : snapAPc .wNewEv = false := rfl
+@[simp, grind =] theorem snapAPc_wAppend : snapAPc .wAppend = false := rfl
+@[simp, grind =] theorem snapAPc_wRelB : snapAPc .wRelB = false := rfl
+@[simp, grind =] theorem snapAPc_wWait : snapAPc .wWait = false := rfl
+@[simp, grind =] theorem snapAPc_wSetupId : snapAPc .wSetupId = false := rfl
+@[simp, grind =] theorem snapAPc_wSetupCopy : snapAPc .wSetupCopy = false := rfl
+@[simp, grind =] theorem snapAPc_wReturn : snapAPc .wReturn = true := rfl
+@[simp, grind =] theorem snapAPc_wBody : snapAPc .wBody = true := rfl
+@[simp, grind =] theorem snapAPc_cAcq : snapAPc .cAcq = false := rfl
+@[simp, grind =] theorem snapAPc_cAppend : snapAPc .cAppend = false := rfl
+@[simp, grind =] theorem snapAPc_cPrune : snapAPc .cPrune = false := rfl
+@[simp, grind =] theorem snapAPc_cNodes : snapAPc .cNodes = false := rfl
+@[simp, grind =] theorem snapAPc_rAcq : snapAPc .rAcq = false := rfl
+@[simp, grind =] theorem snapAPc_eTxnNone : snapAPc .eTxnNone = false := rfl
+@[simp, grind =] theorem snapAPc_eTestW : snapAPc .eTestW = false := rfl
+@[simp, grind =] theorem snapAPc_ePop : snapAPc .ePop = false := rfl
+@[simp, grind =] theorem snapAPc_eSet : snapAPc .eSet = false := rfl
+@[simp, grind =] theorem snapAPc_eRel : snapAPc .eRel = false := rfl
+@[simp, grind =] theorem snapAPc_rdAcq : snapAPc .rdAcq = false := rfl
+@[simp, grind =] theorem snapAPc_rdPick : snapAPc .rdPick = false := rfl
+@[simp, grind =] theorem snapAPc_rdAdd : snapAPc .rdAdd = false := rfl
+@[simp, grind =] theorem snapAPc_rdRel : snapAPc .rdRel = false := rfl
+@[simp, grind =] theorem snapAPc_rdRet : snapAPc .rdRet = false := rfl
+@[simp, grind =] theorem snapAPc_rdBody : snapAPc .rdBody = false := rfl
+@[simp, grind =] theorem snapAPc_xAcq : snapAPc .xAcq = false := rfl
+@[simp, grind =] theorem snapAPc_xRemove : snapAPc .xRemove = false := rfl
+@[simp, grind =] theorem snapAPc_xPrune : snapAPc .xPrune = false := rfl
+@[simp, grind =] theorem snapAPc_xRel : snapAPc .xRel = false := rfl
+@[simp, grind =] theorem snapAPc_done : snapAPc .done = false := rfl
+
+/-- the body has run and the thread is committing (before `self.nodes = version.nodes` has been executed) -/
+def commitPc : Pc → Bool
+  | .cAcq | .cAppend | .cPrune | .cNodes => true
+  | _ => false
+
+@[simp, grind =] theorem commitPc_idle : commitPc .idle = false := rfl
+@[simp, grind =] theorem commitPc_wInit : commitPc .wInit = false := rfl
+@[simp, grind =] theorem commitPc_wAcq : commitPc .wAcq = false := rfl
+@[simp, grind =] theorem commitPc_wTest : commitPc .wTest = false := rfl
+@[simp, grind =] theorem commitPc_wMkTxn : commitPc .wMkTxn = false := rfl
+@[simp, grind =] theorem commitPc_wClrEv : commitPc .wClrEv = false := rfl
+@[simp, grind =] theorem commitPc_wRelA : commitPc .wRelA = false := rfl
+@[simp, grind =] theorem commitPc_wNewEv : commitPc .wNewEv = false := rfl
+@[simp, grind =] theorem commitPc_wAppend : commitPc .wAppend = false := rfl
+@[simp, grind =] theorem commitPc_wRelB : commitPc .wRelB = false := rfl
+@[simp, grind =] theorem commitPc_wWait : commitPc .wWait = false := rfl
+@[simp, grind =] theorem commitPc_wSetupId : commitPc .wSetupId = false := rfl
+@[simp, grind =] theorem commitPc_wSetupCopy : commitPc .wSetupCopy = false := rfl
+@[simp, grind =] theorem commitPc_wReturn : commitPc .wReturn = false := rfl
+@[simp, grind =] theorem commitPc_wBody : commitPc .wBody = false := rfl
+@[simp, grind =] theorem commitPc_cAcq : commitPc .cAcq = true := rfl
+@[simp, grind =] theorem commitPc_cAppend : commitPc .cAppend = true := rfl
+@[simp, grind =] theorem commitPc_cPrune : commitPc .cPrune = true := rfl
+@[simp, grind =] theorem commitPc_cNodes : commitPc .cNodes = true := rfl
+@[simp, grind =] theorem commitPc_rAcq : commitPc .rAcq = false := rfl
+@[simp, grind =] theorem commitPc_eTxnNone : commitPc .eTxnNone = false := rfl
+@[simp, grind =] theorem commitPc_eTestW : commitPc .eTestW = false := rfl
+@[simp, grind =] theorem commitPc_ePop : commitPc .ePop = false := rfl
+@[simp, grind =] theorem commitPc_eSet : commitPc .eSet = false := rfl
+@[simp, grind =] theorem commitPc_eRel : commitPc .eRel = false := rfl
+@[simp, grind =] theorem commitPc_rdAcq : commitPc .rdAcq = false := rfl
+@[simp, grind =] theorem commitPc_rdPick : commitPc .rdPick = false := rfl
+@[simp, grind =] theorem commitPc_rdAdd : commitPc .rdAdd = false := rfl
+@[simp, grind =] theorem commitPc_rdRel : commitPc .rdRel = false := rfl
+@[simp, grind =] theorem commitPc_rdRet : commitPc .rdRet = false := rfl
+@[simp, grind =] theorem commitPc_rdBody : commitPc .rdBody = false := rfl
+@[simp, grind =] theorem commitPc_xAcq : commitPc .xAcq = false := rfl
+@[simp, grind =] theorem commitPc_xRemove : commitPc .xRemove = false := rfl
+@[simp, grind =] theorem commitPc_xPrune : commitPc .xPrune = false := rfl
+@[simp, grind =] theorem commitPc_xRel : commitPc .xRel = false := rfl
+@[simp, grind =] theorem commitPc_done : commitPc .done = false := rfl
+
+/-- the version id has been taken and the version has not been appended yet -/
+def vidPc : Pc → Bool
+  | .wSetupCopy | .wReturn | .wBody | .cAcq | .cAppend => true
+  | _ => false
+
+@[simp, grind =] theorem vidPc_idle : vidPc .idle = false := rfl
+@[simp, grind =] theorem vidPc_wInit : vidPc .wInit = false := rfl
+@[simp, grind =] theorem vidPc_wAcq : vidPc .wAcq = false := rfl
+@[simp, grind =] theorem vidPc_wTest : vidPc .wTest = false := rfl
+@[simp, grind =] theorem vidPc_wMkTxn : vidPc .wMkTxn = false := rfl
+@[simp, grind =] theorem vidPc_wClrEv : vidPc .wClrEv = false := rfl
+@[simp, grind =] theorem vidPc_wRelA : vidPc .wRelA = false := rfl
+@[simp, grind =] theorem vidPc_wNewEv : vidPc .wNewEv = false := rfl
+@[simp, grind =] theorem vidPc_wAppend : vidPc .wAppend = false := rfl
+@[simp, grind =] theorem vidPc_wRelB : vidPc .wRelB = false := rfl
+@[simp, grind =] theorem vidPc_wWait : vidPc .wWait = false := rfl
+@[simp, grind =] theorem vidPc_wSetupId : vidPc .wSetupId = false := rfl
+@[simp, grind =] theorem vidPc_wSetupCopy : vidPc .wSetupCopy = true := rfl
+@[simp, grind =] theorem vidPc_wReturn : vidPc .wReturn = true := rfl
+@[simp, grind =] theorem vidPc_wBody : vidPc .wBody = true := rfl
+@[simp, grind =] theorem vidPc_cAcq : vidPc .cAcq = true := rfl
+@[simp, grind =] theorem vidPc_cAppend : vidPc .cAppend = true := rfl
+@[simp, grind =] theorem vidPc_cPrune : vidPc .cPrune = false := rfl
+@[simp, grind =] theorem vidPc_cNodes : vidPc .cNodes = false := rfl
+@[simp, grind =] theorem vidPc_rAcq : vidPc .rAcq = false := rfl
+@[simp, grind =] theorem vidPc_eTxnNone : vidPc .eTxnNone = false := rfl
+@[simp, grind =] theorem vidPc_eTestW : vidPc .eTestW = false := rfl
+@[simp, grind =] theorem vidPc_ePop : vidPc .ePop = false := rfl
+@[simp, grind =] theorem vidPc_eSet : vidPc .eSet = false := rfl
+@[simp, grind =] theorem vidPc_eRel : vidPc .eRel = false := rfl
+@[simp, grind =] theorem vidPc_rdAcq : vidPc .rdAcq = false := rfl
+@[simp, grind =] theorem vidPc_rdPick : vidPc .rdPick = false := rfl
+@[simp, grind =] theorem vidPc_rdAdd : vidPc .rdAdd = false := rfl
+@[simp, grind =] theorem vidPc_rdRel : vidPc .rdRel = false := rfl
+@[simp, grind =] theorem vidPc_rdRet : vidPc .rdRet = false := rfl
+@[simp, grind =] theorem vidPc_rdBody : vidPc .rdBody = false := rfl
+@[simp, grind =] theorem vidPc_xAcq : vidPc .xAcq = false := rfl
+@[simp, grind =] theorem vidPc_xRemove : vidPc .xRemove = false := rfl
+@[simp, grind =] theorem vidPc_xPrune : vidPc .xPrune = false := rfl
+@[simp, grind =] theorem vidPc_xRel : vidPc .xRel = false := rfl
+@[simp, grind =] theorem vidPc_done : vidPc .done = false := rfl
+
+/-- owner of the write transaction that has not yet published its nodes -/
+def preCommitPc : Pc → Bool
+  | .wClrEv | .wRelA | .wSetupId | .wSetupCopy | .wReturn | .wBody | .cAcq | .cAppend | .cPrune | .cNodes => true
+  | _ => false
+
+@[simp, grind =] theorem preCommitPc_idle : preCommitPc .idle = false := rfl
+@[simp, grind =] theorem preCommitPc_wInit : preCommitPc .wInit = false := rfl
+@[simp, grind =] theorem preCommitPc_wAcq : preCommitPc .wAcq = false := rfl
+@[simp, grind =] theorem preCommitPc_wTest : preCommitPc .wTest = false := rfl
+@[simp, grind =] theorem preCommitPc_wMkTxn : preCommitPc .wMkTxn = false := rfl
+@[simp, grind =] theorem preCommitPc_wClrEv : preCommitPc .wClrEv = true := rfl
+@[simp, grind =] theorem preCommitPc_wRelA : preCommitPc .wRelA = true := rfl
+@[simp, grind =] theorem preCommitPc_wNewEv : preCommitPc .wNewEv = false := rfl
+@[simp, grind =] theorem preCommitPc_wAppend : preCommitPc .wAppend = false := rfl
+@[simp, grind =] theorem preCommitPc_wRelB : preCommitPc .wRelB = false := rfl
+@[simp, grind =] theorem preCommitPc_wWait : preCommitPc .wWait = false := rfl
+@[simp, grind =] theorem preCommitPc_wSetupId : preCommitPc .wSetupId = true := rfl
+@[simp, grind =] theorem preCommitPc_wSetupCopy : preCommitPc .wSetupCopy = true := rfl
+@[simp, grind =] theorem preCommitPc_wReturn : preCommitPc .wReturn = true := rfl
+@[simp, grind =] theorem preCommitPc_wBody : preCommitPc .wBody = true := rfl
+@[simp, grind =] theorem preCommitPc_cAcq : preCommitPc .cAcq = true := rfl
+@[simp, grind =] theorem preCommitPc_cAppend : preCommitPc .cAppend = true := rfl
+@[simp, grind =] theorem preCommitPc_cPrune : preCommitPc .cPrune = true := rfl
+@[simp, grind =] theorem preCommitPc_cNodes : preCommitPc .cNodes = true := rfl
+@[simp, grind =] theorem preCommitPc_rAcq : preCommitPc .rAcq = false := rfl
+@[simp, grind =] theorem preCommitPc_eTxnNone : preCommitPc .eTxnNone = false := rfl
+@[simp, grind =] theorem preCommitPc_eTestW : preCommitPc .eTestW = false := rfl
+@[simp, grind =] theorem preCommitPc_ePop : preCommitPc .ePop = false := rfl
+@[simp, grind =] theorem preCommitPc_eSet : preCommitPc .eSet = false := rfl
+@[simp, grind =] theorem preCommitPc_eRel : preCommitPc .eRel = false := rfl
+@[simp, grind =] theorem preCommitPc_rdAcq : preCommitPc .rdAcq = false := rfl
+@[simp, grind =] theorem preCommitPc_rdPick : preCommitPc .rdPick = false := rfl
+@[simp, grind =] theorem preCommitPc_rdAdd : preCommitPc .rdAdd = false := rfl
+@[simp, grind =] theorem preCommitPc_rdRel : preCommitPc .rdRel = false := rfl
+@[simp, grind =] theorem preCommitPc_rdRet : preCommitPc .rdRet = false := rfl
+@[simp, grind =] theorem preCommitPc_rdBody : preCommitPc .rdBody = false := rfl
+@[simp, grind =] theorem preCommitPc_xAcq : preCommitPc .xAcq = false := rfl
+@[simp, grind =] theorem preCommitPc_xRemove : preCommitPc .xRemove = false := rfl
+@[simp, grind =] theorem preCommitPc_xPrune : preCommitPc .xPrune = false := rfl
+@[simp, grind =] theorem preCommitPc_xRel : preCommitPc .xRel = false := rfl
+@[simp, grind =] theorem preCommitPc_done : preCommitPc .done = false := rfl
+
+/-- the new version is in `_versions` but `zone.nodes` is still the old one -/
+def appendedPc : Pc → Bool
+  | .cPrune | .cNodes => true
+  | _ => false
+
+@[simp, grind =] theorem appendedPc_idle : appendedPc .idle = false := rfl
+@[simp, grind =] theorem appendedPc_wInit : appendedPc .wInit = false := rfl
+@[simp, grind =] theorem appendedPc_wAcq : appendedPc .wAcq = false := rfl
+@[simp, grind =] theorem appendedPc_wTest : appendedPc .wTest = false := rfl
+@[simp, grind =] theorem appendedPc_wMkTxn : appendedPc .wMkTxn = false := rfl
+@[simp, grind =] theorem appendedPc_wClrEv : appendedPc .wClrEv = false := rfl
+@[simp, grind =] theorem appendedPc_wRelA : appendedPc .wRelA = false := rfl
+@[simp, grind =] theorem appendedPc_wNewEv : appendedPc .wNewEv = false := rfl
+@[simp, grind =] theorem appendedPc_wAppend : appendedPc .wAppend = false := rfl
+@[simp, grind =] theorem appendedPc_wRelB : appendedPc .wRelB = false := rfl
+@[simp, grind =] theorem appendedPc_wWait : appendedPc .wWait = false := rfl
+@[simp, grind =] theorem appendedPc_wSetupId : appendedPc .wSetupId = false := rfl
+@[simp, grind =] theorem appendedPc_wSetupCopy : appendedPc .wSetupCopy = false := rfl
+@[simp, grind =] theorem appendedPc_wReturn : appendedPc .wReturn = false := rfl
+@[simp, grind =] theorem appendedPc_wBody : appendedPc .wBody = false := rfl
+@[simp, grind =] theorem appendedPc_cAcq : appendedPc .cAcq = false := rfl
+@[simp, grind =] theorem appendedPc_cAppend : appendedPc .cAppend = false := rfl
+@[simp, grind =] theorem appendedPc_cPrune : appendedPc .cPrune = true := rfl
+@[simp, grind =] theorem appendedPc_cNodes : appendedPc .cNodes = true := rfl
+@[simp, grind =] theorem appendedPc_rAcq : appendedPc .rAcq = false := rfl
+@[simp, grind =] theorem appendedPc_eTxnNone : appendedPc .eTxnNone = false := rfl
+@[simp, grind =] theorem appendedPc_eTestW : appendedPc .eTestW = false := rfl
+@[simp, grind =] theorem appendedPc_ePop : appendedPc .ePop = false := rfl
+@[simp, grind =] theorem appendedPc_eSet : appendedPc .eSet = false := rfl
+@[simp, grind =] theorem appendedPc_eRel : appendedPc .eRel = false := rfl
+@[simp, grind =] theorem appendedPc_rdAcq : appendedPc .rdAcq = false := rfl
+@[simp, grind =] theorem appendedPc_rdPick : appendedPc .rdPick = false := rfl
+@[simp, grind =] theorem appendedPc_rdAdd : appendedPc .rdAdd = false := rfl
+@[simp, grind =] theorem appendedPc_rdRel : appendedPc .rdRel = false := rfl
+@[simp, grind =] theorem appendedPc_rdRet : appendedPc .rdRet = false := rfl
+@[simp, grind =] theorem appendedPc_rdBody : appendedPc .rdBody = false := rfl
+@[simp, grind =] theorem appendedPc_xAcq : appendedPc .xAcq = false := rfl
+@[simp, grind =] theorem appendedPc_xRemove : appendedPc .xRemove = false := rfl
+@[simp, grind =] theorem appendedPc_xPrune : appendedPc .xPrune = false := rfl
+@[simp, grind =] theorem appendedPc_xRel : appendedPc .xRel = false := rfl
+@[simp, grind =] theorem appendedPc_done : appendedPc .done = false := rfl
+
+/-- a reader that has been given its version -/
+def readerHasPc : Pc → Bool
+  | .rdAdd | .rdRel | .rdRet | .rdBody | .xAcq | .xRemove | .xPrune | .xRel => true
+  | _ => false
+
+@[simp, grind =] theorem readerHasPc_idle : readerHasPc .idle = false := rfl
+@[simp, grind =] theorem readerHasPc_wInit : readerHasPc .wInit = false := rfl
+@[simp, grind =] theorem readerHasPc_wAcq : readerHasPc .wAcq = false := rfl
+@[simp, grind =] theorem readerHasPc_wTest : readerHasPc .wTest = false := rfl
+@[simp, grind =] theorem readerHasPc_wMkTxn : readerHasPc .wMkTxn = false := rfl
+@[simp, grind =] theorem readerHasPc_wClrEv : readerHasPc .wClrEv = false := rfl
+@[simp, grind =] theorem readerHasPc_wRelA : readerHasPc .wRelA = false := rfl
+@[simp, grind =] theorem readerHasPc_wNewEv : readerHasPc .wNewEv = false := rfl
+@[simp, grind =] theorem readerHasPc_wAppend : readerHasPc .wAppend = false := rfl
+@[simp, grind =] theorem readerHasPc_wRelB : readerHasPc .wRelB = false := rfl
+@[simp, grind =] theorem readerHasPc_wWait : readerHasPc .wWait = false := rfl
+@[simp, grind =] theorem readerHasPc_wSetupId : readerHasPc .wSetupId = false := rfl
+@[simp, grind =] theorem readerHasPc_wSetupCopy : readerHasPc .wSetupCopy = false := rfl
+@[simp, grind =] theorem readerHasPc_wReturn : readerHasPc .wReturn = false := rfl
+@[simp, grind =] theorem readerHasPc_wBody : readerHasPc .wBody = false := rfl
+@[simp, grind =] theorem readerHasPc_cAcq : readerHasPc .cAcq = false := rfl
+@[simp, grind =] theorem readerHasPc_cAppend : readerHasPc .cAppend = false := rfl
+@[simp, grind =] theorem readerHasPc_cPrune : readerHasPc .cPrune = false := rfl
+@[simp, grind =] theorem readerHasPc_cNodes : readerHasPc .cNodes = false := rfl
+@[simp, grind =] theorem readerHasPc_rAcq : readerHasPc .rAcq = false := rfl
+@[simp, grind =] theorem readerHasPc_eTxnNone : readerHasPc .eTxnNone = false := rfl
+@[simp, grind =] theorem readerHasPc_eTestW : readerHasPc .eTestW = false := rfl
+@[simp, grind =] theorem readerHasPc_ePop : readerHasPc .ePop = false := rfl
+@[simp, grind =] theorem readerHasPc_eSet : readerHasPc .eSet = false := rfl
+@[simp, grind =] theorem readerHasPc_eRel : readerHasPc .eRel = false := rfl
+@[simp, grind =] theorem readerHasPc_rdAcq : readerHasPc .rdAcq = false := rfl
+@[simp, grind =] theorem readerHasPc_rdPick : readerHasPc .rdPick = false := rfl
+@[simp, grind =] theorem readerHasPc_rdAdd : readerHasPc .rdAdd = true := rfl
+@[simp, grind =] theorem readerHasPc_rdRel : readerHasPc .rdRel = true := rfl
+@[simp, grind =] theorem readerHasPc_rdRet : readerHasPc .rdRet = true := rfl
+@[simp, grind =] theorem readerHasPc_rdBody : readerHasPc .rdBody = true := rfl
+@[simp, grind =] theorem readerHasPc_xAcq : readerHasPc .xAcq = true := rfl
+@[simp, grind =] theorem readerHasPc_xRemove : readerHasPc .xRemove = true := rfl
+@[simp, grind =] theorem readerHasPc_xPrune : readerHasPc .xPrune = true := rfl
+@[simp, grind =] theorem readerHasPc_xRel : readerHasPc .xRel = true := rfl
+@[simp, grind =] theorem readerHasPc_done : readerHasPc .done = false := rfl
+
+/-- program points a reader thread can be at -/
+def readerPc : Pc → Bool
+  | .idle | .rdAcq | .rdPick | .rdAdd | .rdRel | .rdRet | .rdBody | .xAcq | .xRemove | .xPrune | .xRel | .done => true
+  | _ => false
+
+@[simp, grind =] theorem readerPc_idle : readerPc .idle = true := rfl
+@[simp, grind =] theorem readerPc_wInit : readerPc .wInit = false := rfl
+@[simp, grind =] theorem readerPc_wAcq : readerPc .wAcq = false := rfl
+@[simp, grind =] theorem readerPc_wTest : readerPc .wTest = false := rfl
+@[simp, grind =] theorem readerPc_wMkTxn : readerPc .wMkTxn = false := rfl
+@[simp, grind =] theorem readerPc_wClrEv : readerPc .wClrEv = false := rfl
+@[simp, grind =] theorem readerPc_wRelA : readerPc .wRelA = false := rfl
+@[simp, grind =] theorem readerPc_wNewEv : readerPc .wNewEv = false := rfl
+@[simp, grind =] theorem readerPc_wAppend : readerPc .wAppend = false := rfl
+@[simp, grind =] theorem readerPc_wRelB : readerPc .wRelB = false := rfl
+@[simp, grind =] theorem readerPc_wWait : readerPc .wWait = false := rfl
+@[simp, grind =] theorem readerPc_wSetupId : readerPc .wSetupId = false := rfl
+@[simp, grind =] theorem readerPc_wSetupCopy : readerPc .wSetupCopy = false := rfl
+@[simp, grind =] theorem readerPc_wReturn : readerPc .wReturn = false := rfl
+@[simp, grind =] theorem readerPc_wBody : readerPc .wBody = false := rfl
+@[simp, grind =] theorem readerPc_cAcq : readerPc .cAcq = false := rfl
+@[simp, grind =] theorem readerPc_cAppend : readerPc .cAppend = false := rfl
+@[simp, grind =] theorem readerPc_cPrune : readerPc .cPrune = false := rfl
+@[simp, grind =] theorem readerPc_cNodes : readerPc .cNodes = false := rfl
+@[simp, grind =] theorem readerPc_rAcq : readerPc .rAcq = false := rfl
+@[simp, grind =] theorem readerPc_eTxnNone : readerPc .eTxnNone = false := rfl
+@[simp, grind =] theorem readerPc_eTestW : readerPc .eTestW = false := rfl
+@[simp, grind =] theorem readerPc_ePop : readerPc .ePop = false := rfl
+@[simp, grind =] theorem readerPc_eSet : readerPc .eSet = false := rfl
+@[simp, grind =] theorem readerPc_eRel : readerPc .eRel = false := rfl
+@[simp, grind =] theorem readerPc_rdAcq : readerPc .rdAcq = true := rfl
+@[simp, grind =] theorem readerPc_rdPick : readerPc .rdPick = true := rfl
+@[simp, grind =] theorem readerPc_rdAdd : readerPc .rdAdd = true := rfl
+@[simp, grind =] theorem readerPc_rdRel : readerPc .rdRel = true := rfl
+@[simp, grind =] theorem readerPc_rdRet : readerPc .rdRet = true := rfl
+@[simp, grind =] theorem readerPc_rdBody : readerPc .rdBody = true := rfl
+@[simp, grind =] theorem readerPc_xAcq : readerPc .xAcq = true := rfl
+@[simp, grind =] theorem readerPc_xRemove : readerPc .xRemove = true := rfl
+@[simp, grind =] theorem readerPc_xPrune : readerPc .xPrune = true := rfl
+@[simp, grind =] theorem readerPc_xRel : readerPc .xRel = true := rfl
+@[simp, grind =] theorem readerPc_done : readerPc .done = true := rfl
+
+/-- number of steps of the lock holder until it releases `_version_lock` (longest path) -/
+def lockFuel : Pc → Nat
+  | .wTest => 4
+  | .wMkTxn => 3
+  | .wClrEv => 2
+  | .wRelA => 1
+  | .wNewEv => 3
+  | .wAppend => 2
+  | .wRelB => 1
+  | .cAppend => 8
+  | .cPrune => 7
+  | .cNodes => 6
+  | .eTxnNone => 5
+  | .eTestW => 4
+  | .ePop => 3
+  | .eSet => 2
+  | .eRel => 1
+  | .rdPick => 3
+  | .rdAdd => 2
+  | .rdRel => 1
+  | .xRemove => 3
+  | .xPrune => 2
+  | .xRel => 1
+  | _ => 0
+
+@[simp, grind =] theorem lockFuel_idle : lockFuel .idle = 0 := rfl
+@[simp, grind =] theorem lockFuel_wInit : lockFuel .wInit = 0 := rfl
+@[simp, grind =] theorem lockFuel_wAcq : lockFuel .wAcq = 0 := rfl
+@[simp, grind =] theorem lockFuel_wTest : lockFuel .wTest = 4 := rfl
+@[simp, grind =] theorem lockFuel_wMkTxn : lockFuel .wMkTxn = 3 := rfl
+@[simp, grind =] theorem lockFuel_wClrEv : lockFuel .wClrEv = 2 := rfl
+@[simp, grind =] theorem lockFuel_wRelA : lockFuel .wRelA = 1 := rfl
+@[simp, grind =] theorem lockFuel_wNewEv : lockFuel .wNewEv = 3 := rfl
+@[simp, grind =] theorem lockFuel_wAppend : lockFuel .wAppend = 2 := rfl
+@[simp, grind =] theorem lockFuel_wRelB : lockFuel .wRelB = 1 := rfl
+@[simp, grind =] theorem lockFuel_wWait : lockFuel .wWait = 0 := rfl
+@[simp, grind =] theorem lockFuel_wSetupId : lockFuel .wSetupId = 0 := rfl
+@[simp, grind =] theorem lockFuel_wSetupCopy : lockFuel .wSetupCopy = 0 := rfl
+@[simp, grind =] theorem lockFuel_wReturn : lockFuel .wReturn = 0 := rfl
+@[simp, grind =] theorem lockFuel_wBody : lockFuel .wBody = 0 := rfl
+@[simp, grind =] theorem lockFuel_cAcq : lockFuel .cAcq = 0 := rfl
+@[simp, grind =] theorem lockFuel_cAppend : lockFuel .cAppend = 8 := rfl
+@[simp, grind =] theorem lockFuel_cPrune : lockFuel .cPrune = 7 := rfl
+@[simp, grind =] theorem lockFuel_cNodes : lockFuel .cNodes = 6 := rfl
+@[simp, grind =] theorem lockFuel_rAcq : lockFuel .rAcq = 0 := rfl
+@[simp, grind =] theorem lockFuel_eTxnNone : lockFuel .eTxnNone = 5 := rfl
+@[simp, grind =] theorem lockFuel_eTestW : lockFuel .eTestW = 4 := rfl
+@[simp, grind =] theorem lockFuel_ePop : lockFuel .ePop = 3 := rfl
+@[simp, grind =] theorem lockFuel_eSet : lockFuel .eSet = 2 := rfl
+@[simp, grind =] theorem lockFuel_eRel : lockFuel .eRel = 1 := rfl
+@[simp, grind =] theorem lockFuel_rdAcq : lockFuel .rdAcq = 0 := rfl
+@[simp, grind =] theorem lockFuel_rdPick : lockFuel .rdPick = 3 := rfl
+@[simp, grind =] theorem lockFuel_rdAdd : lockFuel .rdAdd = 2 := rfl
+@[simp, grind =] theorem lockFuel_rdRel : lockFuel .rdRel = 1 := rfl
+@[simp, grind =] theorem lockFuel_rdRet : lockFuel .rdRet = 0 := rfl
+@[simp, grind =] theorem lockFuel_rdBody : lockFuel .rdBody = 0 := rfl
+@[simp, grind =] theorem lockFuel_xAcq : lockFuel .xAcq = 0 := rfl
+@[simp, grind =] theorem lockFuel_xRemove : lockFuel .xRemove = 3 := rfl
+@[simp, grind =] theorem lockFuel_xPrune : lockFuel .xPrune = 2 := rfl
+@[simp, grind =] theorem lockFuel_xRel : lockFuel .xRel = 1 := rfl
+@[simp, grind =] theorem lockFuel_done : lockFuel .done = 0 := rfl
+
+theorem lockFuel_le (p : Pc) : lockFuel p ≤ 8 := by cases p <;> simp
+theorem lockFuel_pos_iff (p : Pc) : 0 < lockFuel p ↔ holdsLock p = true := by cases p <;> simp
+
+theorem snapAPc_owner (p : Pc) : snapAPc p = true → isOwner p = true := by cases p <;> simp
+theorem commitPc_owner (p : Pc) : commitPc p = true → isOwner p = true := by cases p <;> simp
+theorem vidPc_owner (p : Pc) : vidPc p = true → isOwner p = true := by cases p <;> simp
+theorem preCommitPc_owner (p : Pc) : preCommitPc p = true → isOwner p = true := by cases p <;> simp
+theorem appendedPc_owner (p : Pc) : appendedPc p = true → isOwner p = true := by cases p <;> simp
+theorem queuedPc_iff (p : Pc) : queuedPc p = true ↔ p = .wRelB ∨ p = .wWait := by cases p <;> simp
+theorem tokenPc_iff (p : Pc) : tokenPc p = true ↔ p = .wWait ∨ p = .wAcq ∨ p = .wTest ∨ p = .wMkTxn ∨ p = .wClrEv := by
+  cases p <;> simp
+
 end Model.Writers
